@@ -164,6 +164,17 @@ class Effects:
                 if isinstance(s, ast.AnnAssign) and isinstance(s.target, ast.Name) and (dotted(s.annotation) or "") in SCALAR_ANN:
                     self.scalar_attrs.add(s.target.id)
         self.builtin_attrs = {a for a, k in init_kinds.items() if k == {"builtin"}}
+        # who reads which attribute (a field written by one function and read by no other is a private cache)
+        self.attr_readers: Dict[str, Set[str]] = {}
+        for fi in repo.functions.values():
+            top = fi
+            while top.parent is not None:
+                top = top.parent
+            for n in ast.walk(fi.node):
+                if isinstance(n, ast.Attribute) and isinstance(n.ctx, ast.Load):
+                    self.attr_readers.setdefault(n.attr, set()).add(top.short)
+                elif isinstance(n, ast.Call) and isinstance(n.func, ast.Name) and n.func.id in ("getattr", "hasattr") and len(n.args) >= 2 and isinstance(n.args[1], ast.Constant):
+                    self.attr_readers.setdefault(str(n.args[1].value), set()).add(top.short)
         # closures stored in attributes through constructors: self.X = <param k>
         for c in repo.classes.values():
             init = c.methods.get("__init__")
